@@ -76,7 +76,7 @@ pub fn run(ctx: &Ctx) -> i32 {
     let _ = super::variant::measured();
     let progs = programs12();
     let alphabets: Vec<Vec<Action>> = progs.iter().map(alphabet).collect();
-    let depth = ctx.tier.pick(6, 7);
+    let depth = ctx.tier.pick(6, 9);
     let reset = Action::of(Cmd::Reset);
     // plain runs of the images: what "behaves like a fresh run" means
     let plain: Vec<_> = progs.iter().map(|p| crate::isolate::fresh(Env::new(true), || ()).ok().and_then(|_| run_image(&p.image.raw(), Env::new(true), SESSION_FUEL).ok().and_then(|r| r.ok()))).collect();
